@@ -9,6 +9,7 @@ import (
 	"os"
 	"os/exec"
 	"path/filepath"
+	"regexp"
 	"sort"
 	"strings"
 	"time"
@@ -167,7 +168,9 @@ func (vc *VC) specFor(v Term, t types.Type, st *State, depth int) (*valueSpec, b
 	case *types.Pointer:
 		el := u.Elem()
 		if _, ok := U(el).(*types.Struct); !ok {
-			if _, ok := U(el).(*types.Basic); !ok {
+			_, isBasic := U(el).(*types.Basic)
+			_, isArr := U(el).(*types.Array)
+			if !isBasic && !isArr {
 				return nil, false
 			}
 		}
@@ -278,8 +281,9 @@ func Replay(ctx *Ctx, fres *FuncResult, o *Obligation, secs int) ReplayOutcome {
 	if fn == nil {
 		return ReplayOutcome{Status: "not-replayable", Detail: "lemma: nothing to execute"}
 	}
-	if fn.Signature.TypeParams() != nil || fn.Signature.RecvTypeParams() != nil {
-		return ReplayOutcome{Status: "not-replayable", Detail: "generic function"}
+	tps, tpOK := replayTypeParams(fn)
+	if !tpOK {
+		return ReplayOutcome{Status: "not-replayable", Detail: "generic function whose type parameters cannot be instantiated mechanically"}
 	}
 	if o.Kind != "safe" && o.Kind != "ensures" {
 		return ReplayOutcome{Status: "not-replayable", Detail: "obligation kind " + o.Kind + " has no executable witness"}
@@ -378,7 +382,7 @@ func Replay(ctx *Ctx, fres *FuncResult, o *Obligation, secs int) ReplayOutcome {
 		pos += len(sp.terms)
 		expExprs = append(expExprs, e)
 	}
-	src := buildReplayTest(fn, pkg, ql, argExprs, rIdx, expExprs, o)
+	src := buildReplayTest(fn, pkg, ql, argExprs, rIdx, expExprs, o, tps)
 	out, err := runReplayTest(ctx, fn, src)
 	ro := ReplayOutcome{Attempted: true, TestSrc: src, Output: out}
 	switch {
@@ -399,7 +403,77 @@ func Replay(ctx *Ctx, fres *FuncResult, o *Obligation, secs int) ReplayOutcome {
 	return ro
 }
 
-func buildReplayTest(fn *ssa.Function, pkg *types.Package, ql *qualifier, args []string, rIdx []int, exps []string, o *Obligation) string {
+// replayTypeParams lists the type parameters of fn (receiver's first). ok=false when one of them
+// has a constraint with methods but no core type (no mechanical instantiation).
+func replayTypeParams(fn *ssa.Function) ([]*types.TypeParam, bool) {
+	var tps []*types.TypeParam
+	for _, l := range []*types.TypeParamList{fn.Signature.RecvTypeParams(), fn.Signature.TypeParams()} {
+		if l == nil {
+			continue
+		}
+		for i := 0; i < l.Len(); i++ {
+			tps = append(tps, l.At(i))
+		}
+	}
+	saved := useCoreTypes
+	useCoreTypes = true
+	defer func() { useCoreTypes = saved }()
+	for _, tp := range tps {
+		it, _ := tp.Constraint().Underlying().(*types.Interface)
+		if coreOf(tp) == nil && it != nil && it.NumMethods() > 0 {
+			return nil, false
+		}
+	}
+	return tps, true
+}
+
+// replayInstantiation declares one concrete type per type parameter: its core type when the
+// constraint has one ([4]uint64 otherwise), with stub methods (returning zero values) for the
+// methods the constraint asks for. Returns the declarations and the instantiation list.
+func replayInstantiation(tps []*types.TypeParam, ql *qualifier) (string, string) {
+	saved := useCoreTypes
+	useCoreTypes = true
+	defer func() { useCoreTypes = saved }()
+	conc := map[string]string{}
+	for _, tp := range tps {
+		conc[tp.Obj().Name()] = "gocvT" + tp.Obj().Name()
+	}
+	subst := func(s string) string {
+		for n, c := range conc {
+			s = regexpWord(n).ReplaceAllString(s, c)
+		}
+		return s
+	}
+	var decl strings.Builder
+	var inst []string
+	for _, tp := range tps {
+		name := conc[tp.Obj().Name()]
+		core := "[4]uint64"
+		if c := coreOf(tp); c != nil {
+			core = ql.typeString(c)
+		}
+		fmt.Fprintf(&decl, "type %s %s\n", name, core)
+		if it, ok := tp.Constraint().Underlying().(*types.Interface); ok {
+			for i := 0; i < it.NumMethods(); i++ {
+				m := it.Method(i)
+				sig := m.Type().(*types.Signature)
+				var ps, rs, body []string
+				for k := 0; k < sig.Params().Len(); k++ {
+					ps = append(ps, fmt.Sprintf("p%d %s", k, subst(ql.typeString(sig.Params().At(k).Type()))))
+				}
+				for k := 0; k < sig.Results().Len(); k++ {
+					rs = append(rs, fmt.Sprintf("r%d %s", k, subst(ql.typeString(sig.Results().At(k).Type()))))
+				}
+				_ = body
+				fmt.Fprintf(&decl, "func (x %s) %s(%s) (%s) { return }\n", name, m.Name(), strings.Join(ps, ", "), strings.Join(rs, ", "))
+			}
+		}
+		inst = append(inst, name)
+	}
+	return decl.String(), strings.Join(inst, ", ")
+}
+
+func buildReplayTest(fn *ssa.Function, pkg *types.Package, ql *qualifier, args []string, rIdx []int, exps []string, o *Obligation, tps []*types.TypeParam) string {
 	var body strings.Builder
 	call := ""
 	recvOff := 0
@@ -407,7 +481,15 @@ func buildReplayTest(fn *ssa.Function, pkg *types.Package, ql *qualifier, args [
 		recvOff = 1
 		call = fmt.Sprintf("(a0).%s(", fn.Name())
 	} else {
-		call = fn.Name() + "("
+		call = fn.Name()
+		if l := fn.Signature.TypeParams(); l != nil {
+			var ns []string
+			for i := 0; i < l.Len(); i++ {
+				ns = append(ns, l.At(i).Obj().Name())
+			}
+			call += "[" + strings.Join(ns, ", ") + "]"
+		}
+		call += "("
 	}
 	for i := range args {
 		fmt.Fprintf(&body, "\ta%d := %s\n", i, args[i])
@@ -477,6 +559,30 @@ func buildReplayTest(fn *ssa.Function, pkg *types.Package, ql *qualifier, args [
 		fmt.Fprintf(&sb, "\t%s %q\n", ql.imports[p], p)
 	}
 	sb.WriteString(")\n\n")
+	if len(tps) > 0 {
+		// the body runs inside a generic helper with the function's own type parameter names, so
+		// that the rendered types and composite literals read as in the source
+		var tpl []string
+		for _, tp := range tps {
+			tpl = append(tpl, tp.Obj().Name()+" "+ql.typeString(tp.Constraint()))
+		}
+		decls, inst := replayInstantiation(tps, ql)
+		var sb2 strings.Builder
+		fmt.Fprintf(&sb2, "package %s\n\nimport (\n", pkg.Name())
+		imps = imps[:0]
+		for p := range ql.imports {
+			imps = append(imps, p)
+		}
+		sort.Strings(imps)
+		for _, p := range imps {
+			fmt.Fprintf(&sb2, "\t%s %q\n", ql.imports[p], p)
+		}
+		sb2.WriteString(")\n\n")
+		sb2.WriteString(decls)
+		fmt.Fprintf(&sb2, "\n// generated by gocv: replay of a counterexample for\n//   %s\nfunc verifReplayGeneric[%s](t *testing.T) {\n%s}\n\nfunc TestVerifReplay(t *testing.T) { verifReplayGeneric[%s](t) }\n",
+			o.Name, strings.Join(tpl, ", "), src, inst)
+		return sb2.String()
+	}
 	fmt.Fprintf(&sb, "// generated by gocv: replay of a counterexample for\n//   %s\nfunc TestVerifReplay(t *testing.T) {\n%s}\n", o.Name, src)
 	return sb.String()
 }
@@ -511,3 +617,5 @@ func runReplayTestIn(dir string, src string) (string, error) {
 	out, err := cmd.CombinedOutput()
 	return string(out), err
 }
+
+func regexpWord(w string) *regexp.Regexp { return regexp.MustCompile(`\b` + regexp.QuoteMeta(w) + `\b`) }
